@@ -34,7 +34,7 @@ ASSUMPTIONS = [
     "neutral regime it would be reported as a violation",
 ]
 REQUIRED = {"all": ["clamp_observed", "sentinel_observed", "ratio_in_unit_interval", "cached_dmax_path",
-                    "maximiser_cases", "hill_climb_cases_ge18_neutrals"]}
+                    "maximiser_cases", "hill_climb_cases_ge18_neutrals", "ordered_composition_cases"]}
 LC = {"quick": 10, "thorough": 12}
 LP = {"quick": 9, "thorough": 11}
 NRANDOM = {"quick": 1200, "thorough": 5000}
@@ -58,6 +58,10 @@ def cases(tier, seed):
     for L in range(1, LP[tier] + 1):
         for pat in gen.all_patterns(L):
             yield {"k": "pat", "p": M.pat_str(pat)}
+    for group in ([(1, 19, 18), (11, 9, 18)], [(1, 1, 23), (11, 2, 3)], [(2, 11, 5), (21, 1, 5), (2, 1, 15)], [(1, 2, 34), (12, 3, 4), (1, 23, 4)],
+                  [(10, 1, 2), (1, 0, 12), (10, 12, 0)], [(3, 11, 1), (31, 1, 1), (3, 1, 11)]):
+        yield {"k": "ordered", "comps": [list(c) for c in group]}
+        yield {"k": "ordered", "comps": [list(c) for c in reversed(group)]}
     rng = gen.sub_rng(seed, ID, "random")
     # >= 18 neutral residues: exhaustive search is out of reach, so a hill-climb on delta (own reference) looks for an
     # arrangement beating the documented family; there a kappa above 1 would be a violation (no known finding applies)
@@ -218,6 +222,14 @@ def judge(case, rep, S):
         if len(case["s"]) > 60:
             rep.cnt("long_random")
         judge_seq(rep, S, case["s"], case.get("order", 0), "given")
+    elif case["k"] == "ordered":
+        # different compositions analysed one after another in one process: delta-max must not leak between them
+        rng = gen.sub_rng(0, "ordered", repr(case["comps"]))
+        for p, n, z in case["comps"]:
+            pat = [1] * p + [-1] * n + [0] * z
+            rng.shuffle(pat)
+            rep.cnt("ordered_composition_cases")
+            judge_seq(rep, S, gen.spell(rng, pat), repr((p, n, z)), "composition %r after %r in one process" % ((p, n, z), case["comps"]))
     elif case["k"] == "climb":
         p, n, z = case["c"]
         rng = gen.sub_rng(case["o"], "climb")
